@@ -11,7 +11,7 @@ bad=0
 for d in seeded/*/; do
   name=$(basename "$d")
   [ -n "$FILTER" ] && [[ "$name" != *$FILTER* ]] && continue
-  prop=$(python3 -c "import json;print(json.load(open('$d/meta.json'))['breaks_property'])")
+  prop=$(python3 -c "import json;print((lambda m: m.get('checked_by', m['breaks_property']))(json.load(open('$d/meta.json'))))")
   f="regress/$prop/seed-$name.json"
   [ -f "$f" ] || { echo "NOFILE  $name"; continue; }
   git -C "$WT" apply "/verif/$d/patch.diff" || { echo "PATCH?  $name"; bad=$((bad+1)); continue; }
